@@ -21,7 +21,7 @@ ASSUMPTIONS = ['scope alphabet {s,t,(u)}; at most 2 varied parameters (+1 **kwar
                'probe bodies only record their arguments', 'hard reset by vf/harness.py (validated in C20)']
 WITNESSES = ['longer_prefix_overrides', 'nonprefix_ignored', 'positional_beats_binding', 'keyword_beats_binding',
              'default_left_alone', 'binding_applied', 'missing_required_typeerror', 'varkw_binding',
-             'scoped_selector_replaces_scope', 'class_shape', 'method_shape']
+             'scoped_selector_replaces_scope', 'class_shape', 'method_shape', 'history_failed_required_call']
 
 REC = []
 SHAPES = {}
@@ -166,14 +166,17 @@ def splits(sh):
   """All legal (positional names, keyword names, extra positional, extra keyword) splits for p1/p2."""
   out = []
   pos_params = sh.pos
-  varied = [p for p in (sh.p1, sh.p2)]
-  # modes per varied param
+  varied = sh.pos + sh.kwonly
+  # modes per parameter: the two varied ones take every mode; the others are passed by the caller only when the
+  # signature requires them (so that calls are not vacuous TypeErrors), positionally if that keeps the prefix rule.
   choices = []
   for p in varied:
-    if p in pos_params:
-      choices.append(['pos', 'kw', 'omit'])
+    if p in (sh.p1, sh.p2):
+      choices.append(['pos', 'kw', 'omit'] if p in pos_params else ['kw', 'omit'])
+    elif p in sh.required:
+      choices.append(['pos', 'kw'] if p in pos_params else ['kw'])
     else:
-      choices.append(['kw', 'omit'])
+      choices.append(['omit'])
   for modes in itertools.product(*choices):
     m = dict(zip(varied, modes))
     # positional prefix rule: params before a positional one must be positional too.
@@ -401,6 +404,21 @@ def run_shard(shard, tier, only=None):
   res = core.Result()
   sh = SHAPES[cname]
   P1, P2, PZ, ACTIVE = params(tier)
+  # History before the enumerated calls: one failed call (unfilled gin.REQUIRED) and one failed binding per shape.
+  # Failure paths run code (error formatting, signature ordering) that the happy path never touches; anything they
+  # leave behind in process-wide caches must not change later injection.
+  harness.hard_reset()
+  try:
+    target = sh.call if sh.call is not None else gin.get_configurable(sh.orig)
+    if sh.kind == 'method':
+      target = gin.get_configurable(sh.orig)().meth
+    target(*([gin.REQUIRED] * 1), **({'k': gin.REQUIRED} if 'k' in sh.kwonly else {}))
+  except Exception:  # pylint: disable=broad-except
+    res.w('history_failed_required_call')
+  try:
+    gin.bind_parameter(selector_of(sh) + '.no_such_param_', 1)
+  except Exception:  # pylint: disable=broad-except
+    pass
   sel = selector_of(sh)
   spl = splits(sh)
   zsets = list(subsets(PZ)) if sh.varkw else [[]]
